@@ -10,6 +10,7 @@
 //     exec   other(n)                                           -> untouched sibling
 //     exec   args(#[serde(default)] d, #[serde(rename = "k")] r, p)
 //                                                               -> d optional, r keyed `k`
+//     exec   cfa(#[cfg_attr(not(wasm32), serde(default))] c, p)   -> c optional (attribute wrapped in cfg_attr)
 //     query  qa(n)     sudo  sa(n)     instantiate(n)     migrate(n)        (no forwarded attribute)
 //   interface ifat
 //     #[sv::msg_attr(query, serde(deny_unknown_fields))]       -> only the interface's QueryMsg
@@ -102,6 +103,18 @@ pub mod at {
             p: u64,
         ) -> StdResult<Response> {
             let _ = (d, r, p);
+            Ok(Response::new())
+        }
+
+        // the argument attribute arrives wrapped in cfg_attr (predicate true on every non-wasm target)
+        #[sv::msg(exec)]
+        pub fn cfa(
+            &self,
+            _ctx: ExecCtx,
+            #[cfg_attr(not(target_arch = "wasm32"), serde(default))] c: u64,
+            p: u64,
+        ) -> StdResult<Response> {
+            let _ = (c, p);
             Ok(Response::new())
         }
 
